@@ -201,6 +201,8 @@ def run_sql(ck):
             ck.report_known("unwrap-needs-parser", "%s => Process error '%s'" % (c["query"], c["err_text"]))
         if cls == "having-without-group-by" and c.get("sql") and re.search(r"array JOIN par_b\.slice as arr_b\s+HAVING", c["sql"][0]) and "comparison-on-topk" in known:
             ck.report_known("comparison-on-topk", "%s => ... FROM par_b array JOIN par_b.slice as arr_b HAVING ((value) > (1.000000)) (no aggregation in that select)" % c["query"])
+        if cls == "label-format-ignored" and c.get("sql") and "Map(String, String)" not in c["sql"][0] and "mapUpdate" not in c["sql"][0] and "label-format-ignored" in known:
+            ck.report_known("label-format-ignored", "%s => the SQL neither renames nor adds a label (no mapUpdate(labels, ...)), it groups by mapFilter((k,v) -> k IN ('x'), labels) of the stream labels" % c["query"])
         if cls == "sub-millisecond-range" and c.get("sql") and "/ 0.001000 as value" in c["sql"][0] and "sub-millisecond-range" in known:
             ck.report_known("sub-millisecond-range", "%s => toFloat64(COUNT()) / 0.001000 for a range of 0.0015 s" % c["query"])
     # ---- spec oracle 1: the roll-up table only for representable queries
@@ -297,6 +299,21 @@ def run_sql(ck):
     ck.add_samples([{"query": c["query"], "ctx": c["ctx"], "sql_head": (c.get("sql") or [c.get("err_text", "")])[0][:200]} for c in cases[:3]])
 
 
+def scan_source(ck):
+    """source facts the model relies on and no generated query can witness (dead branches left out of the model)"""
+    import vcheck
+    d = os.path.join(vcheck.REPO, "reader/logql/logql_transpiler_v2/clickhouse_planner")
+    src = {f: open(os.path.join(d, f)).read() for f in os.listdir(d) if f.endswith(".go") and not f.endswith("_test.go") and not f.startswith("zz_verif")}
+    assigns = [ln.strip() for f, t in src.items() for ln in t.splitlines() if re.search(r"\bfastUnwrap\s*=", ln)]
+    ck.obligation("source: planner.fastUnwrap is never set (UnwrapPlanner.processTimeSeries is unreachable, not modelled)",
+                  all(re.fullmatch(r"p\.fastUnwrap = p\.fastUnwrap && .*", a) for a in assigns), "; ".join(assigns))
+    users = [f for f, t in src.items() if "PlannerDropSimple{" in t]
+    ck.obligation("source: PlannerDropSimple is constructed nowhere (not modelled)", not users, ", ".join(users))
+    spl = src.get("planner.go", "")
+    m = re.search(r"func \(p \*planner\) planSpl\(\).*?\n}\n", spl, re.S)
+    ck.obligation("source: planSpl has no branch for label_format (the model plans nothing for it)", bool(m) and "LabelFormat" not in m.group(0), "")
+
+
 def run(ck):
     ck.trusted += [
         "C08: the meaning of each emitted SQL shape (model/LogqlMetricSem.v sem_*: GROUP BY = partition by key, aggregates over the group in table order, any() = a member, SELECT aliases shadow source columns of the same name except inside their own definition, intDiv truncates, HAVING filters groups) is a reading of the ClickHouse documentation, not executed: no ClickHouse exists in the sandbox",
@@ -309,5 +326,6 @@ def run(ck):
                             "non-trivial = the real planners produced SQL; distinct by (query, context). post-processors: random batches of window-start rows of 1-3 series "
                             "(fingerprint 0 included, zero and negative values, rows outside [from,to], off-grid timestamps), ranges/steps smaller, equal, larger; non-trivial = FixPeriod case with >= 3 rows. ")
     ck.coq_props()
+    scan_source(ck)
     run_sql(ck)
     run_post(ck)
